@@ -32,20 +32,74 @@ theorem tie_clampReplicas (R : Nat) (replicas : Int) :
   unfold GoZero.Extracted.C15.clampReplicas GoZero.C15.clampReplicas
   by_cases h : replicas > (R : Int) <;> simp [h]
 
-/-- `AddWithWeight`: `h.replicas * weight / TopWeight` with Go's truncating division. -/
-theorem tie_weightReplicas (R : Nat) (weight : Int) :
+/-- a product that fits a Go `int` is not changed by the wrap-around -/
+theorem wrapInt_id (x : Int) (h : -9223372036854775808 ≤ x ∧ x < 9223372036854775808) : wrapInt x = x := by
+  unfold wrapInt; omega
+
+/-- the wrap-around always lands in the range of a Go `int` and is congruent to the product mod 2^64 -/
+theorem wrapInt_range (x : Int) :
+    -9223372036854775808 ≤ wrapInt x ∧ wrapInt x < 9223372036854775808 ∧
+      (wrapInt x - x) % 18446744073709551616 = 0 := by
+  unfold wrapInt; omega
+
+/-- `AddWithWeight`: `h.replicas * weight / TopWeight` with Go's truncating division — the translated
+expression equals the model's wherever the product fits an `int` … -/
+theorem tie_weightReplicas (R : Nat) (weight : Int)
+    (h : -9223372036854775808 ≤ (R : Int) * weight ∧ (R : Int) * weight < 9223372036854775808) :
     GoZero.Extracted.C15.weightReplicas weight (R : Int) GoZero.Extracted.C15.topWeight = GoZero.C15.weightReplicas R weight := by
   unfold GoZero.Extracted.C15.weightReplicas GoZero.C15.weightReplicas GoZero.Extracted.C15.topWeight GoZero.C15.topWeight
-  rfl
+  rw [wrapInt_id _ h]
+
+/-- … and in general it is the translated division applied to the wrapped product (Go `int` is 64 bit). -/
+theorem tie_weightReplicas_overflow (R : Nat) (weight : Int) :
+    GoZero.Extracted.C15.weightReplicas (wrapInt ((R : Int) * weight)) 1 GoZero.Extracted.C15.topWeight
+      = GoZero.C15.weightReplicas R weight := by
+  unfold GoZero.Extracted.C15.weightReplicas GoZero.C15.weightReplicas GoZero.Extracted.C15.topWeight GoZero.C15.topWeight
+  rw [Int.one_mul]
+
+/-- the statement the formula was translated from (operand order, operators, the constant's name) -/
+theorem tie_weightStmt : GoZero.Extracted.C15.weightStmt = ["replicas := h.replicas * weight / TopWeight"] := rfl
 
 /-- the documented meaning of a weight: `w` percent of the ring's replicas, for 0 ≤ w ≤ 100 on the default ring -/
 theorem weight_is_percent (w : Nat) (hw : w ≤ 100) :
     GoZero.C15.clampReplicas 100 (GoZero.C15.weightReplicas 100 w) = w := by
   unfold GoZero.C15.clampReplicas GoZero.C15.weightReplicas GoZero.C15.topWeight
+  rw [wrapInt_id _ (by omega)]
   have : Int.tdiv ((100 : Nat) * (w : Int)) 100 = (w : Int) := by
     rw [Int.tdiv_eq_ediv_of_nonneg (by omega)]; omega
   rw [this]
   split <;> omega
+
+/-- weights above `TopWeight` give the full replica count (clamped by `AddWithReplicas`), weights ≤ 0 none,
+as long as the product does not overflow -/
+theorem weight_clamped (R : Nat) (hR : 100 ≤ R) (w : Int) (hw : 100 ≤ w)
+    (h : (R : Int) * w < 9223372036854775808) :
+    GoZero.C15.clampReplicas R (GoZero.C15.weightReplicas R w) = R := by
+  unfold GoZero.C15.clampReplicas GoZero.C15.weightReplicas GoZero.C15.topWeight
+  have hpos : 0 ≤ (R : Int) * w := Int.mul_nonneg (by omega) (by omega)
+  rw [wrapInt_id _ ⟨by omega, h⟩, Int.tdiv_eq_ediv_of_nonneg hpos]
+  have : (R : Int) * 100 ≤ (R : Int) * w := Int.mul_le_mul_of_nonneg_left hw (by omega)
+  have : (R : Int) ≤ (R : Int) * w / 100 := by omega
+  split <;> omega
+
+theorem weight_nonpositive (R : Nat) (w : Int) (hw : w ≤ 0) (h : -9223372036854775808 ≤ (R : Int) * w) :
+    GoZero.C15.clampReplicas R (GoZero.C15.weightReplicas R w) = 0 := by
+  unfold GoZero.C15.clampReplicas GoZero.C15.weightReplicas GoZero.C15.topWeight
+  have hneg : (R : Int) * w ≤ 0 := Int.mul_nonpos_of_nonneg_of_nonpos (by omega) hw
+  rw [wrapInt_id _ ⟨h, by omega⟩]
+  have : Int.tdiv ((R : Int) * w) 100 ≤ 0 := by
+    generalize (R : Int) * w = x at hneg
+    have e : x = -(-x) := by omega
+    rw [e, Int.neg_tdiv]
+    have := Int.tdiv_nonneg (show 0 ≤ -x by omega) (show (0:Int) ≤ 100 by omega)
+    omega
+  split <;> omega
+
+/-- overflow is real: on the default ring (100 replicas) a weight of 92233720368547759 (> 2^63/100) wraps to
+a negative product and the node gets NO virtual node, although the weight is positive. -/
+theorem weight_overflow_witness :
+    GoZero.C15.clampReplicas 100 (GoZero.C15.weightReplicas 100 92233720368547759) = 0 ∧
+    GoZero.C15.clampReplicas 128 (GoZero.C15.weightReplicas 128 144115188075855873) = 1 := by decide
 
 /-! ### skeletons and the expressions that decide what is hashed, searched and ordered -/
 
